@@ -233,6 +233,12 @@ def _zero_block(prog, cn, fld, idx, value):
     """self.F[:] = <typed zero array> * <length of F>  ->  (value is all zero, it covers exactly the array)"""
     if idx != ("slc", C(None), C(None), C(None)):
         return False, False
+    def length_ok(n):
+        return (n[0] == "call" and n[1] == ("g", "len") and len(n[2]) == 1 and n[2][0][0] == "f" and n[2][0][1] == SELF and n[2][0][2] == fld) \
+            or n in alloc_lengths(prog, cn, fld)
+    if value[0] == "newb" and value[1] == "array" and len(value[3]) == 2 and value[3][0] == C("B") and value[3][1][0] == "call" \
+            and value[3][1][1] == ("g", "bytes") and len(value[3][1][2]) == 1:
+        return True, length_ok(value[3][1][2][0])  # array('B', bytes(n)): n zero bytes
     if not (value[0] == "nary" and value[1] == "*" and len(value[2]) == 2):
         return False, False
     arr = [x for x in value[2] if x[0] == "newb" and x[1] == "array"]
